@@ -73,38 +73,42 @@ theorem receiveResponse_cases (g : Guards) (hg : adequate g = true) (c : Conn) (
   have hl : PyExc.typeError.caughtBy g.lookup = true := by
     simp only [adequate, Bool.and_eq_true] at hg; exact hg.1.1.1.1.2
   unfold receiveResponse
-  cases hin : pyIn rid (singleKeys c.out) with
-  | error e =>
-    have := pyIn_error _ _ _ hin; subst this
-    simp only [hl, if_true]
-    exact Or.inr ⟨_, rfl, rfl, rfl⟩
-  | ok b =>
-    cases b with
-    | false => exact Or.inr ⟨_, rfl, rfl, rfl⟩
-    | true =>
-      have hany : (singleKeys c.out).any (pyEq rid) = true := by
-        unfold pyIn at hin
-        split at hin
-        · injection hin
-        · cases hin
-      obtain ⟨k, hk⟩ := findSingle_of_any rid c.out hany
-      simp only [hk]
-      refine Or.inl ⟨k, ?_, rfl, rfl⟩
-      -- the key found is one of the outstanding ones
-      clear hin hany
-      generalize c.out = out at hk
-      induction out with
-      | nil => simp [findSingle] at hk
-      | cons a r ih =>
-        cases a with
-        | single i =>
-          simp only [findSingle] at hk
-          split at hk
-          · injection hk with hk; subst hk; simp
-          · exact List.mem_cons_of_mem _ (ih hk)
-        | batch ks =>
-          simp only [findSingle] at hk
-          exact List.mem_cons_of_mem _ (ih hk)
+  cases hb : rid.isBool with
+  | true => exact Or.inr ⟨_, rfl, rfl, rfl⟩
+  | false =>
+    simp only [Bool.false_eq_true, if_false]
+    cases hin : pyIn rid (singleKeys c.out) with
+    | error e =>
+      have := pyIn_error _ _ _ hin; subst this
+      simp only [hl, if_true]
+      exact Or.inr ⟨_, rfl, rfl, rfl⟩
+    | ok b =>
+      cases b with
+      | false => exact Or.inr ⟨_, rfl, rfl, rfl⟩
+      | true =>
+        have hany : (singleKeys c.out).any (pyEq rid) = true := by
+          unfold pyIn at hin
+          split at hin
+          · injection hin
+          · cases hin
+        obtain ⟨k, hk⟩ := findSingle_of_any rid c.out hany
+        simp only [hk]
+        refine Or.inl ⟨k, ?_, rfl, rfl⟩
+        -- the key found is one of the outstanding ones
+        clear hin hany
+        generalize c.out = out at hk
+        induction out with
+        | nil => simp [findSingle] at hk
+        | cons a r ih =>
+          cases a with
+          | single i =>
+            simp only [findSingle] at hk
+            split at hk
+            · injection hk with hk; subst hk; simp
+            · exact List.mem_cons_of_mem _ (ih hk)
+          | batch ks =>
+            simp only [findSingle] at hk
+            exact List.mem_cons_of_mem _ (ih hk)
 
 /-! ### `_receive_response_batch` -/
 
